@@ -1,11 +1,15 @@
 package c03
 
 import (
+	"crypto/tls"
 	"encoding/json"
 	"fmt"
 	"io"
 
+	apiv1 "k8s.io/api/core/v1"
+
 	"github.com/nginx/nginx-gateway-fabric/verifharness/c02"
+	"github.com/nginx/nginx-gateway-fabric/verifharness/c16"
 	p "github.com/nginx/nginx-gateway-fabric/verifharness/pipeline"
 	"github.com/nginx/nginx-gateway-fabric/verifharness/rng"
 )
@@ -51,6 +55,70 @@ func runFragments(w io.Writer, seed uint64, n, only int) {
 		line.Flat = &fl
 		line.HTTP = p.FileText(out.Files, httpConfPath)
 		line.Matches = p.FileText(out.Files, matchesPath)
+		if only >= 0 {
+			line.Objs = p.EncodeObjects(s.Objs)
+		}
+		_ = enc.Encode(line)
+	}
+}
+
+// SecretJ is a TLS Secret of the scenario as Driver/C16 (`parseSecret`) reads it.
+type SecretJ struct {
+	NS     string `json:"ns"`
+	Name   string `json:"name"`
+	Type   string `json:"type"`
+	Cert   string `json:"cert"`
+	Key    string `json:"key"`
+	PairOK bool   `json:"pairOK"`
+}
+
+// FragTLSJ is one line of the `-fragment-tls` stream: a scenario of C16's fragment generator (C02's fragment + HTTPS
+// listeners, Secrets, ReferenceGrants) with the REAL http.conf / matches.json and the names of the real secret files.
+// The Lean side (driver mode `rendertls`) renders it with Model/RenderTls and compares (RenderTlsTie.tie).
+type FragTLSJ struct {
+	ID      string          `json:"id"`
+	Flat    *c02.Flat       `json:"flat,omitempty"`
+	HTTP    string          `json:"http"`
+	Matches string          `json:"matches"`
+	Secrets []SecretJ       `json:"secrets"`
+	SFiles  []string        `json:"sfiles"`
+	Panic   string          `json:"panic,omitempty"`
+	Objs    json.RawMessage `json:"objs,omitempty"`
+}
+
+func runFragmentsTLS(w io.Writer, seed uint64, n, only int) {
+	enc := json.NewEncoder(w)
+	enc.SetEscapeHTML(false)
+	r := rng.New(seed ^ 0xc03716)
+	for i := 0; i < n; i++ {
+		s := c16.GenFragmentTLS(r.Fork())
+		c02.ApplyDefaults(s.Objs)
+		if only >= 0 && i != only {
+			continue
+		}
+		line := FragTLSJ{ID: fmt.Sprintf("t%d-%d", seed, i), Secrets: []SecretJ{}, SFiles: []string{}}
+		_, out := p.RunFresh(s.Objs, s.Opts, nil)
+		if out.Panic != "" {
+			line.Panic = p.PanicSite(out.Panic)
+			_ = enc.Encode(line)
+			continue
+		}
+		fl := c02.Flatten(s.Objs, s.Opts)
+		line.Flat = &fl
+		line.HTTP = p.FileText(out.Files, httpConfPath)
+		line.Matches = p.FileText(out.Files, matchesPath)
+		for _, o := range s.Objs {
+			if x, ok := o.(*apiv1.Secret); ok {
+				_, err := tls.X509KeyPair(x.Data[apiv1.TLSCertKey], x.Data[apiv1.TLSPrivateKeyKey])
+				line.Secrets = append(line.Secrets, SecretJ{NS: x.Namespace, Name: x.Name, Type: string(x.Type),
+					Cert: string(x.Data[apiv1.TLSCertKey]), Key: string(x.Data[apiv1.TLSPrivateKeyKey]), PairOK: err == nil})
+			}
+		}
+		for _, f := range p.SortedFiles(out.Files) {
+			if len(f.Path) > len("/etc/nginx/secrets/") && f.Path[:len("/etc/nginx/secrets/")] == "/etc/nginx/secrets/" {
+				line.SFiles = append(line.SFiles, f.Path)
+			}
+		}
 		if only >= 0 {
 			line.Objs = p.EncodeObjects(s.Objs)
 		}
